@@ -8,12 +8,14 @@ import DS.Gen.Opcodes
 namespace DS.Driver
 open DS.Peg
 
-def pegActs : Array Act := DS.Gen.Actions.actions.map (actOf DS.Gen.Actions.methods DS.Gen.Opcodes.opcodes)
+def pegActs : Array Act := DS.Gen.Actions.acts
+
+def opNum (n : String) : Nat := ((DS.Gen.Opcodes.opcodes.find? (·.1 == n)).map (·.2)).getD 9999
 
 def pegEnv (input : Array Nat) (maxCnt : Nat) : Env :=
   { input := input, rules := DS.Gen.Grammar.rules, acts := pegActs, nodeCount := DS.Gen.Grammar.nodeCount,
     tables := DS.Gen.Unicode.tables,
-    bpush := blockPushOp DS.Gen.Opcodes.opcodes, bpop := blockPopOp DS.Gen.Opcodes.opcodes, jmp := jmpOp DS.Gen.Opcodes.opcodes,
+    bpush := opNum "typeBlockPush", bpop := opNum "typeBlockPop", jmp := opNum "typeJmp",
     maxCnt := maxCnt }
 
 def pegFlags (tok : String) : Flags × Nat :=
